@@ -8,7 +8,7 @@
    numpy.fft.fft / ifft are oracles assumed to compute the defining sums (fft_spec, ifft_spec).
    Round trips additionally assume orthogonality of the powers of zeta (true of exp(2 pi i / L)). *)
 From Coq Require Import ZArith List Bool Arith QArith Qcanon.
-From QV Require Import Base.Alg Base.Sums Base.Dft Model.C13 Proofs.C13.
+From QV Require Import Base.Alg Base.Sums Base.Dft Model.C13 Proofs.C13 Proofs.C13gen.
 Import ListNotations.
 
 (* ---- the shifts ---- *)
@@ -149,6 +149,32 @@ Proof.
 Qed.
 Print Assumptions c13_odd_complete_refuted.
 
+(* ---- the array programs of the code (skeletons instantiated from the source on every run, Proofs/C13gen.v) ---- *)
+(* conjugate upper-half axes: the frequency axis has twice the points of the time axis (the array lengths the
+   transforms work with: N values, transform length 2 N) *)
+Theorem c13_conjugate_lengths : forall (K : Fld) (tp : K),
+  (forall t w, freq_axis_of K tp t = Some w -> a_type t = UpperHalf -> a_len w = (2 * a_len t)%nat) /\
+  (forall w t, time_axis_of K tp w = Some t -> a_type w = UpperHalf -> a_len w = (2 * a_len t)%nat).
+Proof. exact conj_lengths. Qed.
+Print Assumptions c13_conjugate_lengths.
+
+(* point k of numpy.fft.fftshift(numpy.fft.fftfreq(n, d)) - arrays as the code builds them - is (k - n//2)/(n d),
+   the grid the axis theorems are stated over *)
+Theorem c13_shifted_fftfreq_grid : forall (K : Fld) (n : nat) (d : K) (k : nat), (k < n)%nat ->
+  aget (arr_shift (arr_fftfreq n d)) k = fftfreq_shifted K n d k.
+Proof. exact aget_shift_fftfreq. Qed.
+Print Assumptions c13_shifted_fftfreq_grid.
+
+(* the fill loop of the upper-half branches  yy = zeros(2N); yy[0:N] = y; for k in range(0, N-1): yy[2N-k-1] = conj(y[k+1])
+   (bounds and indices as parameters, Python index semantics) computes the Hermitian extension the transform theorems use *)
+Theorem c13_hermitian_fill_program : forall (R : StarRing) (N : nat) (y : list R) zl slo shi klo khi idx src,
+  N <> 0%nat -> length y = N -> zl = (2 * N)%nat -> slo = 0%nat -> shi = N -> klo = 0%Z -> khi = (Z.of_nat N - 1)%Z ->
+  (forall k, (0 <= k < Z.of_nat N - 1)%Z -> idx k = (2 * Z.of_nat N - k - 1)%Z) ->
+  (forall k, (0 <= k < Z.of_nat N - 1)%Z -> src k = (k + 1)%Z) ->
+  herm_skel zl slo shi klo khi idx src y = herm y.
+Proof. exact (@herm_skel_is_model). Qed.
+Print Assumptions c13_hermitian_fill_program.
+
 (* ---- non-vacuity ---- *)
 (* the rationals are a field of the required kind, and concrete axes go round *)
 Open Scope Q_scope.
@@ -170,3 +196,9 @@ Example c13_example_repaired_length3 :
       (combine (ift_freq fft3 Repaired Complete (r1 EQ) third (ft_time ifft3 Repaired Complete (r1 EQ) y3)) y3)
   = [true; true; true].
 Proof. exact repaired3_roundtrip. Qed.
+
+(* the fill program on concrete Gaussian integers: N = 3, the code's own bounds and indices *)
+Example c13_example_fill :
+  herm_skel (R := GZ) 6 0 3 0 2 (fun k => 6 - k - 1)%Z (fun k => k + 1)%Z [(1, 2); (3, 4); (5, -6)]%Z
+  = [(1, 2); (3, 4); (5, -6); (0, 0); (5, 6); (3, -4)]%Z.
+Proof. vm_compute. reflexivity. Qed.
